@@ -882,8 +882,16 @@ class Gen:
         pre_block = []
         nitems = r.choice([0, 1, 1, 2, 2, 3, 3, 4, 5, 6])
         for _ in range(nitems):
-            item = r.choice(['stage'] * 8 + ['loop'] * 4 + ['nested'])
-            if item == 'stage':
+            item = r.choice(['stage'] * 8 + ['loop'] * 4 + ['nested'] + ['default'] * 2)
+            if item == 'default':
+                # `set default` between the stages of a block: the cells left unstaged are filled when the block ends, so this
+                # is the default of this block (and of later commands); the stages after it are stages still
+                if r.random() < 0.7 or self.cur is None:
+                    self.set_colour(out=body)
+                body.append('set default')
+                self.stmts.append(('default', self.cur_cid()))
+                self.feat['block:set-default-inside'] += 1
+            elif item == 'stage':
                 if r.random() < 0.8 or self.cur is None:
                     self.set_colour(out=body)
                 rows, cols, cols_first, words = self.stage_clauses(mat, pre_block, need_one=r.random() < 0.93)
